@@ -27,18 +27,23 @@ package channel
 //@   ensures #defaults result.1 == nil && len(options) == 0 ==> result.0.StripPrompt && !result.0.Eager && !result.0.ExactMatchInput && result.0.Timeout == -1
 
 // ---- C01 / C03 / C09 / C16: what a channel write puts on the wire ---------------------------------------------
-//@ func (*Channel).Write [C01 C16 C11]
-//@   modifies wire
+// quiet: ghost typestate - true after a successful read-until-prompt, false after any write
+//@ ghost quiet bool
+//@ func (*Channel).Write [C01 C16 C11 C12]
+//@   modifies wire, quiet
+//@   at return set quiet = false
 //@   ensures #exact-bytes result == nil ==> wire == old(wire) ++ b
 //@   ensures #nothing-on-error result != nil ==> wire == old(wire)
+//@   ensures #not-quiet !quiet
+//@   at call Debugf#1 assert #redacted-writes-are-not-logged r ==> lm == "redacted"
 
 //@ func (*Channel).WriteReturn [C01 C16]
-//@   modifies wire
+//@   modifies wire, quiet
 //@   ensures #exactly-one-return result == nil ==> wire == old(wire) ++ c.ReturnChar
 //@   ensures #nothing-on-error result != nil ==> wire == old(wire)
 
 //@ func (*Channel).WriteAndReturn [C01 C16]
-//@   modifies wire
+//@   modifies wire, quiet
 //@   ensures #input-then-return result == nil ==> wire == old(wire) ++ b ++ c.ReturnChar
 //@   ensures #partial-only-on-error result != nil ==> wire == old(wire) || wire == old(wire) ++ b
 
@@ -75,18 +80,22 @@ package channel
 //@   ensures #hands-out-queue-head result.1 == nil ==> rd == old(rd) ++ result.0 && (len(old(c.Q.queue)) == 0 ? (len(result.0) == 0 && c.Q.queue == old(c.Q.queue)) : (result.0 == old(c.Q.queue)[0] && c.Q.queue == old(c.Q.queue)[1:len(old(c.Q.queue))]))
 //@   ensures #exited-means-error c.readLoopExited ==> result.1 != nil
 
-//@ func (*Channel).ReadUntilPrompt [C01 C05 C06]
+//@ func (*Channel).ReadUntilPrompt [C01 C05 C06 C12]
 //@   requires RI(c.Q) && c.PromptSearchDepth >= 0
-//@   modifies rd, c.Q.queue, c.Q.depth
+//@   modifies rd, c.Q.queue, c.Q.depth, quiet
+//@   at return set quiet = (result.1 == nil)
+//@   ensures #quiet-iff-prompt-seen quiet <==> (result.1 == nil)
 //@   ensures #ri RI(c.Q)
 //@   ensures #nil-on-error result.1 != nil ==> len(result.0) == 0
 //@   ensures #returns-exactly-what-it-consumed result.1 == nil ==> rd == old(rd) ++ result.0
 //@   ensures #success-means-prompt-seen result.1 == nil ==> reMatch(c.PromptPattern, window(result.0, c.PromptSearchDepth))
 //@   loop 1 invariant RI(c.Q) && rd == old(rd) ++ rb
 
-//@ func (*Channel).ReadUntilAnyPrompt [C01 C05 C06]
+//@ func (*Channel).ReadUntilAnyPrompt [C01 C05 C06 C12]
 //@   requires RI(c.Q) && c.PromptSearchDepth >= 0
-//@   modifies rd, c.Q.queue, c.Q.depth
+//@   modifies rd, c.Q.queue, c.Q.depth, quiet
+//@   at return set quiet = (result.1 == nil)
+//@   ensures #quiet-iff-prompt-seen quiet <==> (result.1 == nil)
 //@   ensures #ri RI(c.Q)
 //@   ensures #nil-on-error result.1 != nil ==> len(result.0) == 0
 //@   ensures #returns-exactly-what-it-consumed result.1 == nil ==> rd == old(rd) ++ result.0
@@ -127,7 +136,7 @@ package channel
 // was produced after exactly input, then one return, were written
 //@ func (*Channel).SendInputB [C01 C05 C06]
 //@   requires RI(c.Q) && c.PromptSearchDepth >= 0
-//@   modifies wire, rd, c.Q.queue, c.Q.depth, echoed, optlog, alloc()
+//@   modifies wire, rd, c.Q.queue, c.Q.depth, echoed, optlog, quiet, alloc()
 //@   chaninv cr v => v != nil && (v.err == nil ==> wire == old(wire) ++ input ++ c.ReturnChar)
 //@   at call WithTimeout#1 assert #operation-timeout-threaded arg1 == (op.Timeout == -1 ? c.TimeoutOps : (op.Timeout == 0 ? 86400 * 1000000000 : op.Timeout))
 //@   ensures #nil-payload-on-error result.1 != nil ==> len(result.0) == 0
@@ -137,6 +146,87 @@ package channel
 //@ chanmode (*Channel).SendInputB$1:cr count
 //@ func (*Channel).SendInputB$1 [C01 C05 C06 C12]
 //@   requires RI(c.Q) && c.PromptSearchDepth >= 0
-//@   modifies wire, rd, c.Q.queue, c.Q.depth, echoed, err, alloc()
+//@   modifies wire, rd, c.Q.queue, c.Q.depth, echoed, quiet, err, alloc()
 //@   ensures #exactly-one-result chlen(cr) == old(chlen(cr)) + 1
 //@   at call WriteReturn#1 assert #return-only-after-echo echoed == input && wire == old(wire) ++ input
+
+// ---- C12: interactive dialogues are paced by the device; C11: hidden inputs are written redacted -----------------------
+
+//@ func dyn:channel.(*Channel).sendInteractive:readUntilF
+//@   trusted
+//@   requires RI(c.Q) && c.PromptSearchDepth >= 0
+//@   modifies rd, c.Q.queue, c.Q.depth, echoed
+//@   ensures RI(c.Q)
+//@   ensures result.1 == nil ==> echoed == arg1
+//@   ensures result.1 != nil ==> len(result.0) == 0
+
+//@ spec noneMatches(ps []ref, b []byte) bool := forall k int :: 0 <= k && k < len(ps) ==> !reMatch(ps[k], b)
+
+//@ chanmode (*Channel).sendInteractive:cr count
+//@ func (*Channel).sendInteractive [C12 C11 C06]
+//@   requires RI(c.Q) && c.PromptSearchDepth >= 0 && (forall k int :: 0 <= k && k < len(events) ==> events[k] != nil)
+//@   requires cr != nil && !closed(cr)
+//@   modifies wire, rd, c.Q.queue, c.Q.depth, echoed, quiet, alloc()
+//@   ensures #exactly-one-result chlen(cr) == old(chlen(cr)) + 1
+//@   at call Write#1 assert #input-only-after-previous-prompt i == 0 || quiet
+//@   at call Write#1 assert #hidden-inputs-are-redacted arg1 == e.HideInput
+//@   at call Write#1 assert #no-input-after-a-complete-pattern-matched i > 0 && len(op.CompletePatterns) > 0 ==> noneMatches(op.CompletePatterns, pb)
+//@   at call dyn#1 assert #hidden-inputs-not-awaited e.ChannelResponse != "" && !e.HideInput
+//@   loop 1 invariant rangeindex < len(events) && RI(c.Q) && chlen(cr) == old(chlen(cr))
+//@   loop 1 invariant rangeindex >= 0 ==> quiet && i == rangeindex && (len(op.CompletePatterns) > 0 && rangeindex < len(events) - 1 ==> noneMatches(op.CompletePatterns, pb))
+//@   loop 2 invariant rangeindex#2 < len(op.CompletePatterns) && RI(c.Q) && chlen(cr) == old(chlen(cr)) && quiet && i == rangeindex && i < len(events) - 1
+//@   loop 2 invariant !done && (forall k int :: 0 <= k && k <= rangeindex#2 ==> !reMatch(op.CompletePatterns[k], pb))
+
+// ---- C10: in-channel login ---------------------------------------------------------------------------------------------------
+
+//@ func (*Channel).sshMessageHandler [C10]
+//@   let lb = lower(b)
+//@   pure
+//@   ensures #connection-error-class result != nil ==> isErr(result, util.ErrConnectionError)
+//@   ensures #host-key-failure contains(lb, "host key verification failed") ==> result != nil
+//@   ensures #timed-out contains(lb, "operation timed out") || contains(lb, "connection timed out") ==> result != nil
+//@   ensures #no-route contains(lb, "no route to host") ==> result != nil
+//@   ensures #no-matching-algorithm contains(lb, "no matching") && (contains(lb, "no matching host key") || contains(lb, "no matching key exchange") || contains(lb, "no matching cipher")) ==> result != nil
+//@   ensures #later-phrases !contains(lb, "no matching") && (contains(lb, "bad configuration") || contains(lb, "warning: unprotected private key file") || contains(lb, "could not resolve hostname") || contains(lb, "permission denied")) ==> result != nil
+//@   ensures #nothing-recognised !contains(lb, "host key verification failed") && !contains(lb, "operation timed out") && !contains(lb, "connection timed out") && !contains(lb, "no route to host") && !contains(lb, "no matching") && !contains(lb, "bad configuration") && !contains(lb, "warning: unprotected private key file") && !contains(lb, "could not resolve hostname") && !contains(lb, "permission denied") ==> result == nil
+
+//@ func (*Channel).authenticateSSH [C10 C11]
+//@   requires RI(c.Q)
+//@   modifies wire, rd, c.Q.queue, c.Q.depth, quiet, alloc()
+//@   ensures #success-means-prompt result != nil && result.err == nil ==> reMatch(c.PromptPattern, result.b)
+//@   at call WriteAndReturn#1 assert #password-only-to-its-prompt-redacted reMatch(c.PasswordPattern, b) && !reMatch(c.PromptPattern, b) && arg0 == p && arg1 && pCount <= 2
+//@   at call WriteAndReturn#2 assert #passphrase-only-to-its-prompt-redacted reMatch(c.PassphrasePattern, b) && !reMatch(c.PasswordPattern, b) && !reMatch(c.PromptPattern, b) && arg0 == pp && arg1 && ppCount <= 2
+//@   at return assert #third-prompt-is-an-auth-error pCount > 2 || ppCount > 2 ==> result != nil && isErr(result.err, util.ErrAuthError)
+//@   loop 1 invariant RI(c.Q) && 0 <= pCount && pCount <= 2 && 0 <= ppCount && ppCount <= 2
+
+//@ func (*Channel).authenticateTelnet [C10 C11]
+//@   requires RI(c.Q) && c.PromptSearchDepth >= 0
+//@   modifies wire, rd, c.Q.queue, c.Q.depth, quiet, alloc()
+//@   ensures #success-means-prompt result != nil && result.err == nil ==> reMatch(c.PromptPattern, result.b)
+//@   at call WriteAndReturn#1 assert #username-written-redacted-at-most-twice arg0 == u && arg1 && uCount <= 2
+//@   at call WriteAndReturn#2 assert #password-written-redacted-at-most-twice arg0 == p && arg1 && pCount <= 2
+//@   at return assert #third-prompt-is-an-auth-error uCount > 2 || pCount > 2 ==> result != nil && isErr(result.err, util.ErrAuthError)
+//@   loop 1 invariant RI(c.Q) && 0 <= uCount && uCount <= 2 && 0 <= pCount && pCount <= 2
+
+// ---- C07: Close closes the transport on every path ---------------------------------------------------------------------------
+
+//@ func (*Channel).Close [C07]
+//@   modifies implClosed, alloc()
+//@   ensures #transport-closed implClosed
+
+// the two outer login functions race the login goroutine against a timer; their bodies are not verified (the
+// goroutine hand-off may legitimately deliver a nil result only after cancellation, which is a timing argument)
+//@ func (*Channel).AuthenticateSSH
+//@   noverify
+//@   requires RI(c.Q)
+//@   modifies wire, rd, c.Q.queue, c.Q.depth, quiet, alloc()
+//@   ensures RI(c.Q)
+//@ func (*Channel).AuthenticateTelnet
+//@   noverify
+//@   requires RI(c.Q)
+//@   modifies wire, rd, c.Q.queue, c.Q.depth, quiet, alloc()
+//@   ensures RI(c.Q)
+
+//@ func (*Channel).Open [C07 C10]
+//@   requires RI(c.Q)
+//@   ensures #failed-open-closes-the-transport result != nil && implOpened ==> implClosed
